@@ -21,7 +21,7 @@ CLAIMED = {
          "48 000 (quick) / 250 000 (thorough) known-size documents, junk of 1-12 bytes (byte values that start no declared id) inserted at every boundary between two tags and at one random position; read from a slice or in short reads, with a small or default buffer, strictly or with hierarchy / oversized-element errors tolerated (never invalid ids: junk stays junk); with the precondition true: same prefix, exactly one error, try_recover Ok, rest identical with shifted offsets; always: no panic, only EOF/read errors from try_recover, never backwards.",
          "trusted: reference encoder layout for the precondition; the undamaged parse (anchored by C01/C03)", "4.14"),
  "C17": ("proptest over element headers with adversarial declared sizes × limits × capacities × tolerance, measured with a counting global allocator (thread-local peak); oracle = explicit byte bounds",
-         "320 000 + 320 000 (quick) / 1.5 M + 1.5 M (thorough) cases: a header declaring S in every representable width at root / inside known / inside unknown-size parents under limit M: S > M must be rejected with peak heap growth <= 2·cap + 4 KiB and no oversized read request; S <= M with missing payload <= 4·max(S,cap) + 4 KiB + payload present; whole parses of generated / mutated / adversarial streams under limit M <= 4·max(M,cap) + 8 KiB (the factor 4 is what a moving realloc of the doubling Vec costs, DESIGN 14.7); 16 000 (quick) / 60 000 (thorough) long streams of elements just within the limit: memory must not creep up.",
+         "320 000 + 320 000 (quick) / 1.5 M + 1.5 M (thorough) cases: a header declaring S in every representable width at root / inside known / inside unknown-size parents under limit M: S > M must be rejected with peak heap growth <= 2·cap + 4 KiB and no oversized read request — also when next() is simply called again after the size error; S <= M with missing payload <= 4·max(S,cap) + 4 KiB + payload present; whole parses of generated / mutated / adversarial streams under limit M <= 4·max(M,cap) + 8 KiB (the factor 4 is what a moving realloc of the doubling Vec costs, DESIGN 14.7); 16 000 (quick) / 60 000 (thorough) long streams of elements just within the limit: memory must not creep up.",
          "trusted: the counting allocator (thread-local); declared sizes within the limit are capped at 4 MiB for cost; only heap is measured", "4.17"),
  "C09": ("proptest over (forest, collapse choices, per-element options, short-write schedule); paired-run byte equality + reference header walk of the output",
          "320 000 (quick) / 1.5 M (thorough) generated documents are written in paired presentations (Full vs Start/End — masters inside a Full item given as nested Full or as Start/End children of it —, deprecated vs option-based unknown size, explicit widths vs defaults, scripted short-write destination vs Vec); outputs must be byte-identical, explicit widths are read back with the reference header parser and ids/payloads must be unchanged.",
@@ -41,8 +41,8 @@ CLAIMED = {
  "C04": ("exhaustive enumeration of all read partitions of small inputs × capacities + proptest random schedules / EOF pauses; metamorphic oracle (equality with the slice parse)",
          "Every composition of the input length into read sizes (2^(len-1) schedules) for 90 (quick, length <= 13) / 300 (thorough, length <= 16) small valid / truncated / corrupted documents × 12 capacities incl. 0, plus random schedules, capacities 0..64 and temporary Ok(0) at tag boundaries on the full reader mix; the whole observation sequence incl. the first error's fields must equal the slice parse.",
          "metamorphic against the implementation itself (the property is that equality); C03/C06/C12 anchor the slice parse", "4.4"),
- "C05": ("proptest over (bytes, configuration, next/try_recover call script, scripted source with short reads and one injected io::Error); oracle = totality invariants with a call-count bound",
-         "960 000 (quick) / 5 M (thorough) generated histories; a stage measuring stack depth against the number of consecutive buffered masters; every call under catch_unwind, item bound 4·len+64, call cap 8× that, fused after None, try_recover error kinds and monotonicity, provenance of read errors. A libFuzzer target with the same oracle extends the thorough tier.",
+ "C05": ("proptest over (bytes, configuration, next/try_recover call script, scripted source with short reads and an injected io::Error, once or from then on); oracle = totality invariants with a call-count bound",
+         "960 000 (quick) / 5 M (thorough) generated histories; a stage measuring stack depth against the number of consecutive buffered masters; every call under catch_unwind, item bound 4·len+64, call cap 8× that, fused after None, try_recover error kinds and monotonicity, provenance of read errors, nothing emitted twice after a transient source failure, the item bound also under a source that keeps failing. A libFuzzer target with the same oracle extends the thorough tier.",
          "trusted: the scripted source; consistency of DynSpec/RichSpec; declared sizes that would allocate > 64 MiB are read under a 1 MiB limit", "4.5"),
  "C06": ("proptest over mutated / mid-document / mixed known-unknown documents and a dedicated template; oracle = StructureChecker (own stack, ref_match, byte extents from the reference header parser)",
          "960 000 (quick) / 5 M (thorough) strict-mode parses are replayed by an independent checker that keeps its own open-master stack: nesting, ids in spec, declared-path match, containment in every known-size range, End of known-size masters neither early nor late, everything closed with End at the end.",
@@ -60,10 +60,10 @@ CLAIMED = {
          "Every byte position of each of 32 000 (quick) / 200 000 (thorough) generated documents (canonical and non-canonical encodings, known/unknown sizes, 1-8 byte ids) is used as truncation point under a slice source, 1-byte reads or pseudo-random chunking and several capacities; expected prefix, closing Ends and every field of the UnexpectedEOF error are computed from the encoder's layout, never from the reader. Exhaustive over cuts per document, sampled over documents.",
          "trusted: reference encoder layout; Ends between the last complete tag and the incomplete one are optional (the statement does not fix them)", "4.12"),
  "C15": ("exhaustive enumeration of short values/slices + boundary lattice + proptest random values against an independent u128/i128 vint codec",
-         "Every value below 2^23 (quick) / 2^28 (thorough) in all nine encoder variants, |v| < 2^22 / 2^27 signed, every byte slice of length <= 3, every id candidate below 2^24, a lattice around every power-of-two boundary, and random 64-bit values are compared with a reference codec written from RFC 8794. Exhaustive inside those bounds, sampled outside; the functions are pure so there is no state to miss.",
+         "Every value below 2^23 (quick) / 2^28 (thorough) in all nine encoder variants and through every implementation of the Vint trait (u64, u32, u16, u8) that can hold the value, |v| < 2^22 / 2^27 signed, every byte slice of length <= 3, every id candidate below 2^24, a lattice around every power-of-two boundary, and random 64-bit values are compared with a reference codec written from RFC 8794. Exhaustive inside those bounds, sampled outside; the functions are pure so there is no state to miss.",
          "trusted: the reference codec in harness/core/src/refmodel.rs (unit-tested against the crate's documented examples); widths 1..8 only", "4.15"),
  "C16": ("exhaustive enumeration of slices <= 2-3 bytes + bit lattice + proptest random slices / written values against from_be_bytes reference decoders",
-         "All slices of length <= 3, a bit lattice for lengths 3..9 and random slices are decoded by arr_to_u64/i64/f64 and by reference decoders; boundary and random u64/i64/f64 values are written through TagWriter, the payload located with the reference header parser, its width checked against the minimal 1/2/4/8 rule and decoded by library, reference and iterator.",
+         "All slices of length <= 3, a bit lattice for lengths 3..16 and random slices of 0..16 bytes are decoded by arr_to_u64/i64/f64 and by reference decoders; boundary and random u64/i64/f64 values are written through TagWriter, the payload located with the reference header parser, its width checked against the minimal 1/2/4/8 rule and decoded by library, reference and iterator.",
          "trusted: reference decoders (from_be_bytes based) and reference header parser", "4.16"),
 }
 TODO_REASON = "not claimed"
